@@ -38,7 +38,8 @@ def load_contracts():
 
 def _work(task):
     """Worker: one (function, contract) pair -> list of result dicts."""
-    key, ci, timeout_ms, label, chunk, block, shard = task
+    key, ci, timeout_ms, label, chunk, block, shard = task[:7]
+    pid = task[7] if len(task) > 7 else None
     import z3  # noqa
     from pyvc.engine import Executor
     from pyvc.verify import verify_function
@@ -52,9 +53,12 @@ def _work(task):
         ex = Executor(_REPO, REG)
         obs, err = verify_function(ex, fi, c, label=label, chunk=chunk, block=block)
         results = []
+        only = (c.only_for or {}).get(pid)
         for oi, ob in enumerate(obs):
             if shard is not None and oi % shard[1] != shard[0]:
                 continue            # another process takes this obligation
+            if only is not None and not any(x in ob.name for x in only):
+                continue            # this property needs only some of the contract's obligations (the rest run under others)
             r = solve(ob, timeout_ms=c.timeout or timeout_ms)
             r.update(name=ob.name, kind=ob.kind, clause=(ob.info or {}).get('clause') or (ob.info or {}).get('why'),
                      size=len(ob.assumptions))
@@ -143,15 +147,15 @@ def run(pid, tier, seed=0, jobs=None, only=None, verbose=False):
                 elif c.cases:
                     nchunk = 32
                     for ch in range(nchunk):
-                        tasks.append((key, i, timeout_ms, label, (ch, nchunk), None, None))
+                        tasks.append((key, i, timeout_ms, label, (ch, nchunk), None, None, pid))
                 else:
-                    tasks.append((key, i, timeout_ms, label, None, None, None))
+                    tasks.append((key, i, timeout_ms, label, None, None, None, pid))
                 for bname, bspec in (c.blocks or {}).items():
                     if pid not in bspec.get('props', c.props):
                         continue
                     ns = bspec.get('shards', 1)
                     for sh in range(ns):
-                        tasks.append((key, i, timeout_ms, label, None, bname, (sh, ns) if ns > 1 else None))
+                        tasks.append((key, i, timeout_ms, label, None, bname, (sh, ns) if ns > 1 else None, pid))
     assumed = sorted({key for key, cs in REG.contracts.items() for c in cs if pid in c.props and c.assumed})
     jobs = jobs or min(16, max(1, len(tasks)))
     if jobs > 1 and len(tasks) > 1:
